@@ -100,9 +100,9 @@ func (r *Rand) Int63n(n int64) int64 {
 	}
 	return int64(r.Uint64() % uint64(n))
 }
-func (r *Rand) Float() float64     { return float64(r.Uint64()>>11) / (1 << 53) }
+func (r *Rand) Float() float64        { return float64(r.Uint64()>>11) / (1 << 53) }
 func (r *Rand) Chance(p float64) bool { return r.Float() < p }
-func (r *Rand) Bool() bool          { return r.Uint64()&1 == 1 }
+func (r *Rand) Bool() bool            { return r.Uint64()&1 == 1 }
 func (r *Rand) Range(lo, hi int) int { // inclusive
 	if hi <= lo {
 		return lo
@@ -125,7 +125,7 @@ func (r *Rand) Bytes(n int) []byte {
 	}
 	return b
 }
-func (r *Rand) Fork() *Rand { return NewRand(r.Uint64()) }
+func (r *Rand) Fork() *Rand         { return NewRand(r.Uint64()) }
 func Pick[T any](r *Rand, xs []T) T { return xs[r.Intn(len(xs))] }
 
 // Read implements io.Reader (used as crypto/rand.Reader).
